@@ -68,6 +68,8 @@ M = [
     ('query', '__get_task_attribute', 'pjplan/task.py', "        if attribute_name in t.__dict__ or attribute_name in ('estimate', 'spent'):", "        if attribute_name in t.__dict__:", 'public-attribute'),
     ('text', 'colored_text', 'pjplan/utils.py', "    text = text + ' ' * (width - len(text))", "    text = text + ' ' * (width - len(text) - 1)", 'visible-width'),
     ('text', '_TextTableRow.repr', 'pjplan/utils.py', "                text = colored_text('  ', width[i] + 2, self.color, self.bg_color)", "                text = colored_text('  ', width[i], self.color, self.bg_color)", 'width'),
+    ('text', 'TextTable.text_repr', 'pjplan/utils.py', "                widths_map[i] = max(len(r.get_cell(i).text), widths_map.setdefault(i, 0))", "                widths_map[i] = min(len(r.get_cell(i).text), widths_map.setdefault(i, 0))", 'fit'),
+    ('text', 'TextTable.text_repr', 'pjplan/utils.py', "            if len(res) > 0:\n                res += '\\n'\n            res += r.repr(widths, border, border_color)", "            res += r.repr(widths, border, border_color)", 'line'),
     ('csvio', '__parse_bool', 'pjplan/io/csv_io.py', "    return _val == 'True'", "    return _val == 'true'", 'bool'),
     ('csvio', 'write_csv.cells', 'pjplan/io/csv_io.py', "                task.name if task.name else '',\n                task.resource if task.resource else '',", "                task.name if task.name else '',\n                task.name if task.resource else '',", 'resource'),
     ('csvio', 'tasks_to_raws', 'pjplan/io/raw.py', "            parent_id=t.parent.id if t.parent else None,", "            parent_id=t.parent.id if t.parent and t.parent.id != 0 else None,", 'parent_id'),
